@@ -750,19 +750,29 @@ class Condition():
         '''Check the test and reschedule the routine if True.'''
         with self._state_lock:
             if self.test:
-                tmp_wtt = self._waiting_threads
-                self._waiting_threads = []
-                for tt in tmp_wtt:
-                    tt._clock.sched(0, tt)
+                self._resume_waiting()
 
     def unhang(self):
         '''Unhang a previously hung routine.'''
         with self._state_lock:
             # // Ignore the test, just resume all waiting threads.
-            tmp_wtt = self._waiting_threads
-            self._waiting_threads = []
-            for tt in tmp_wtt:
+            self._resume_waiting()
+
+    def _resume_waiting(self):
+        # Call with acquired lock.
+        tmp_wtt = self._waiting_threads
+        self._waiting_threads = []
+        error = None
+        for tt in tmp_wtt:
+            try:
                 tt._clock.sched(0, tt)
+            except Exception as e:
+                # A routine that can't be rescheduled (e.g. its clock was
+                # stopped) must not leave the ones queued behind it waiting.
+                if error is None:
+                    error = e
+        if error is not None:
+            raise error
 
 
 class FlowVar():
